@@ -32,6 +32,11 @@ MUTANTS = {
          "        entry = self.cache.get(code)\n        if entry is None:\n            entry = self.cache[code] = (code, get_func(frame))"),
         ("await recorded as a yield again", T, "            if frame.f_code.co_flags & inspect.CO_COROUTINE:", "            if False and frame.f_code.co_flags & inspect.CO_COROUTINE:"),
         ("await suspension ends the call", T, "                # call is not over.\n                return\n", "                # call is not over.\n                del self.traces[frame]\n                self.logger.log(trace)\n                return\n"),
+        ("argument values typed lazily, when the call returns", T,
+         ["                arg_types[name] = get_type(\n                    frame.f_locals[name], max_typed_dict_size=self.max_typed_dict_size\n                )\n",
+          "            del self.traces[frame]\n            self.logger.log(trace)"],
+         ["                arg_types[name] = frame.f_locals[name]\n",
+          "            trace.arg_types = {n: get_type(v, max_typed_dict_size=self.max_typed_dict_size) for n, v in trace.arg_types.items()}\n            del self.traces[frame]\n            self.logger.log(trace)"]),
         ("exception exit recorded as NoneType return", T, "            if last_opcode in (RETURN_VALUE_OPCODE, RETURN_CONST_OPCODE):\n                trace.return_type = typ", "            trace.return_type = typ"),
     ],
     "C18": [
@@ -50,6 +55,9 @@ MUTANTS = {
         ("no finally", T, "    try:\n        yield\n    finally:\n        sys.setprofile(old_trace)\n        try:\n            logger.flush()", "    yield\n    if True:\n        sys.setprofile(old_trace)\n        try:\n            logger.flush()"),
         ("flush failure escapes again", T, "        try:\n            logger.flush()\n        except Exception:", "        try:\n            logger.flush()\n        except KeyError:"),
         ("isinstance on traced values again", TY, "    if issubclass(typ, type):\n        return Type[obj]", "    if isinstance(obj, type):\n        return Type[obj]"),
+        ("module globals scanned with isinstance again", T, "            if not issubclass(type(v), type):\n                continue", "            if not isinstance(v, type):\n                continue"),
+        ("tracer also installed in threads, never removed from running ones", T, "    sys.setprofile(CallTracer(logger, max_typed_dict_size, code_filter, sample_rate))\n    try:\n        yield\n    finally:\n        sys.setprofile(old_trace)\n",
+         "    import threading\n    tracer = CallTracer(logger, max_typed_dict_size, code_filter, sample_rate)\n    threading.setprofile(tracer)\n    sys.setprofile(tracer)\n    try:\n        yield\n    finally:\n        threading.setprofile(None)\n        sys.setprofile(old_trace)\n"),
         ("truthiness test on traced values", TY, "        return Iterator[Any]\n    if typ is list:", "        return Iterator[Any]\n    if not obj and typ is object:\n        return typ\n    if typ is list:"),
     ],
     "C09": [
@@ -68,6 +76,7 @@ MUTANTS = {
         ("dict value type from first value only", TY, "        val_type = shrink_types(\n            (get_type(v, max_typed_dict_size) for v in dct.values()),\n            max_typed_dict_size,\n        )\n        return Dict[key_type, val_type]",
          "        val_type = shrink_types(\n            (get_type(v, max_typed_dict_size) for v in list(dct.values())[:1]),\n            max_typed_dict_size,\n        )\n        return Dict[key_type, val_type]"),
         ("stored NoneType decoded as absent", EN, "    if (encoded is None) or (encoded == \"null\"):\n        return None", "    if (encoded is None) or (encoded == \"null\") or ('\"NoneType\"' in encoded and 'elem_types' not in encoded):\n        return None"),
+        ("TypedDict field imports dropped again", ST, "                imports.merge(get_imports_for_annotation(attribute_stub.typ))", "                pass"),
         ("first session's rows shadow later ones", SQ, "    ORDER BY date(created_at) DESC\n    LIMIT ?", "    ORDER BY date(created_at) DESC\n    LIMIT min(?, 3)"),
     ],
     "C06": [
@@ -109,15 +118,21 @@ def main(ids):
     bad = 0
     for pid in ids:
         for name, fn, old, new in MUTANTS.get(pid, []):
+            if os.environ.get("VERIF_MUTANT") and os.environ["VERIF_MUTANT"] not in name:
+                continue
             wt = "/tmp/sens-%s-%d" % (pid, os.getpid())
             sh("git", "-C", "/repo", "worktree", "add", "--detach", wt, "HEAD")
             try:
                 path = os.path.join(wt, fn)
                 src = open(path).read()
-                if src.count(old) != 1:
-                    rows.append((pid, name, "mutant does not apply (%d matches)" % src.count(old), "", ""))
+                olds, news = (old, new) if isinstance(old, list) else ([old], [new])
+                if any(src.count(o) != 1 for o in olds):
+                    rows.append((pid, name, "mutant does not apply (%r matches)" % [src.count(o) for o in olds], "", ""))
                     bad += 1
                     continue
+                for o, n_ in zip(olds[:-1], news[:-1]):
+                    src = src.replace(o, n_)
+                old, new = olds[-1], news[-1]
                 extra = ""
                 if "NameLookupError" in new and "import" not in new and fn == CL:
                     src = src.replace("from monkeytype.exceptions import MonkeyTypeError", "from monkeytype.exceptions import MonkeyTypeError, NameLookupError")
